@@ -173,6 +173,19 @@ def run(report, tier, seed):
             if size <= 40:
                 cc.add(f"proxy_ok (zproxy_raw {gb} {rb} {tp}) (zsortable_proxy {gb} {rb} {tp}) {core.cnats(proxy)}",
                        {"kind": "sortable_proxy", "poly": desc, "graded": g, "reverse": r, "impl": proxy})
+            nzero = sum(1 for i in range(size) if not elem_terms(lay, i))
+            if size <= 40 and (nzero <= 1 or any(not any(r_) for r_ in lay["rows"])):
+                # argmin / argmax positions, and the positions amin / amax take their element from, against the model
+                # (skipped when several zero elements have no stored constant row: numpy's tie handling decides there)
+                _, pe_ = core.canon_elements(p)
+                _, vmax_e = core.canon_elements(vmax)
+                _, vmin_e = core.canon_elements(vmin)
+                cand_max = [i for i, e in enumerate(pe_) if len(vmax_e) == 1 and e == vmax_e[0]]
+                cand_min = [i for i, e in enumerate(pe_) if len(vmin_e) == 1 and e == vmin_e[0]]
+                cc.add(f"[&& zargmin {gb} {rb} {tp} == {an}%nat, zargmax {gb} {rb} {tp} == {am}%nat, "
+                       f"zamax_pos {gb} {rb} {tp} \\in {core.cnats(cand_max)} & zamin_pos {gb} {rb} {tp} \\in {core.cnats(cand_min)}]",
+                       {"kind": "argmin/argmax/amin/amax", "poly": desc, "graded": g, "reverse": r,
+                        "impl": {"argmin": an, "argmax": am, "amax_is_element": cand_max, "amin_is_element": cand_min}})
             if sorted(proxy) != list(range(size)):
                 note("proxy", f"sortable_proxy({desc}) = {proxy} is not a permutation of 0..{size-1}", {"poly": lay})
                 continue
